@@ -28,6 +28,9 @@ CALS = [
                                             | {datetime(2024, 2, d): 6 for d in range(1, 29, 2)}
                                             | {datetime(2023, 12, d): 6 for d in range(1, 29, 3)}) | WeeklyCalendar(days=[6], units_per_day=1)),
     ('or', lambda: WeeklyCalendar(days=[0, 1], units_per_day=6) | FixedCalendar(2)),
+    # validity bounds with a time of day: capacity asked at 09:00 and at midnight of the boundary day differ
+    ('bounded-midday', lambda: WeeklyCalendar(days=[0, 1, 2, 3, 4, 5, 6], units_per_day=8) - FixedCalendar(4, end=datetime(2024, 1, 9, 8))),
+    ('or-bounded-midday', lambda: WeeklyCalendar(days=[0, 1, 2, 3, 4], units_per_day=4, end=datetime(2024, 1, 10, 12)) | WeeklyCalendar(days=[0, 1, 2, 3, 4, 5], units_per_day=8)),
 ]
 DEAD_CALS = [
     ('zero', lambda: FixedCalendar(0)),
@@ -46,6 +49,7 @@ def build(rng, direction, feat=None):
     fixed_mode = direction == 'fwd' and rng.random() < 0.25
     deep = rng.random() < 0.35           # nested summaries with links declared on outer summaries
     if deep: n = rng.randint(4, 7)
+    id0 = 0 if rng.random() < 0.25 else 1          # ids may start at 0 (a falsy id)
     for i in range(n):
         kw = dict(estimate=rng.choice([None, 0, 1, 3.5, 8, 8, 20]), spent=rng.choice([None, None, 0, 1, 9]),
                   resource=rng.choice(['r1', 'r2', None]))
@@ -55,7 +59,7 @@ def build(rng, direction, feat=None):
             kw['min_start'] = datetime(2024, 1, rng.randint(1, 20), rng.choice([0, 0, 10]))
         if rng.random() < 0.3:
             kw['prio'] = rng.choice([1, 'high', None])
-        t = Task(i + 1, f't{i + 1}', **kw); tasks.append(t)
+        t = Task(i + id0, f't{i + id0}', **kw); tasks.append(t)
         cands = [p for p in tasks[:-1] if not p.milestone]
         if deep and cands and rng.random() < 0.75:
             rng.choice(cands[-2:]).children.append(t)
@@ -154,6 +158,7 @@ def resources(rng, tags, expect, direction='fwd'):
         else:
             cn, c = rng.choice(CALS)
         rs.append((name, cn, c))
+        if 'midday' in cn: tags.add('calendar-bound-with-time-of-day')
     return rs
 
 
@@ -261,6 +266,10 @@ def run_case(seed, index, props, direction=None, verbose=False):
         r1 = result_view(s)
         s2 = sched(mk()).calc(w)
         if result_view(s2) != r1: R.bad('C06 repeated call differs (fresh scheduler)')
+        rs_shared = mk(); sc = sched(rs_shared)
+        ra = result_view(sc.calc(w)); rb = result_view(sc.calc(w))
+        if ra != r1 or rb != r1: R.bad('C06 repeated call on the same scheduler object differs')
+        if result_view(sched(rs_shared).calc(w)) != r1: R.bad('C06 fresh scheduler with the same resource objects differs')
         if direction == 'fwd' and clock <= bound:
             set_clock(bound - timedelta(days=rng.randint(0, 400), hours=rng.choice([0, 5])))
             if bound.hour and FakeDT._now >= mid(bound): tags.add('clock-on-the-day-of-a-nonmidnight-project-start')
